@@ -116,6 +116,8 @@ type Exec struct {
 	litOrd        map[*ast.FuncLit]int
 	written       map[string]bool // heap keys written on objects the caller can see
 	inlineStack   []*inlineFrame
+	elemCells     map[*Term]bool // cells standing for &s[i] (read-only views)
+	addrTakenCache map[*types.Var]bool
 	inlineSite    token.Pos // position of the outermost inlined call (scope of sink clauses)
 	factSink      *State // receives type-invariant facts discovered while evaluating contract expressions
 }
@@ -268,6 +270,15 @@ func (x *Exec) stmt(s ast.Stmt, st *State, cs []*ctl) []*State {
 				for _, n := range vs.Names {
 					if v, ok := x.info.Defs[n].(*types.Var); ok {
 						x.setVar(st, v, x.zeroLocal(st, v.Type(), n.Name))
+						if _, isStruct := v.Type().Underlying().(*types.Struct); isStruct && x.addressTaken(v) {
+							// `var b T` whose address is taken later (&b, or a
+							// pointer-receiver method on b): the variable is an
+							// object from its declaration on
+							p := x.alloc(st, "addr_"+v.Name())
+							x.heapStoreStruct(st, v.Type(), p, st.vars[v])
+							st.vars[v] = Bx{p}
+							x.zeroGhosts(st, p)
+						}
 					}
 				}
 				continue
@@ -414,6 +425,70 @@ func (x *Exec) setVar(st *State, v *types.Var, val Value) {
 }
 
 // zeroLocal: zero value; byte slices/arrays declared locally get their own region when they are arrays sliced later.
+// addressTaken: the unit takes the address of local v somewhere (explicitly,
+// or implicitly by calling a pointer-receiver method on it).
+func (x *Exec) addressTaken(v *types.Var) bool {
+	if x.unit == nil || x.unit.Decl == nil {
+		return false
+	}
+	if x.addrTakenCache == nil {
+		x.addrTakenCache = map[*types.Var]bool{}
+		ast.Inspect(x.unit.Decl, func(n ast.Node) bool {
+			switch e := n.(type) {
+			case *ast.UnaryExpr:
+				if e.Op == token.AND {
+					if id, ok := unparen(e.X).(*ast.Ident); ok {
+						if o, ok := x.info.ObjectOf(id).(*types.Var); ok {
+							x.addrTakenCache[o] = true
+						}
+					}
+				}
+			case *ast.CallExpr:
+				if sel, ok := unparen(e.Fun).(*ast.SelectorExpr); ok {
+					if s := x.info.Selections[sel]; s != nil && s.Kind() == types.MethodVal && len(s.Index()) == 1 {
+						if fn, ok := s.Obj().(*types.Func); ok {
+							if sig, ok := fn.Type().(*types.Signature); ok && sig.Recv() != nil {
+								if _, isPtr := sig.Recv().Type().Underlying().(*types.Pointer); isPtr {
+									if id, ok := unparen(sel.X).(*ast.Ident); ok {
+										if o, ok := x.info.ObjectOf(id).(*types.Var); ok {
+											if _, isStruct := o.Type().Underlying().(*types.Struct); isStruct {
+												x.addrTakenCache[o] = true
+											}
+										}
+									}
+								}
+							}
+						}
+					}
+				}
+			}
+			return true
+		})
+	}
+	return x.addrTakenCache[v]
+}
+
+// zeroGhosts: the scalar ghost fields of a zero-valued object start at zero /
+// false (an empty strings.Builder has lexed nothing, an empty buffer holds
+// nothing); ghost arrays stay unconstrained.
+func (x *Exec) zeroGhosts(st *State, p *Term) {
+	for _, g := range x.eng.cs.Ghost {
+		srt := x.ghostSort(g.Type)
+		var z *Term
+		switch {
+		case srt.Kind == SBool:
+			z = False
+		case srt.Eq(x.ar.mathSort()):
+			z = x.ar.mathC(newBig(0))
+		default:
+			continue
+		}
+		key := "ghost:" + g.Name
+		arr := x.heapGet(st, key, ArrSort(IntSort, srt))
+		st.heap[key] = Store(arr, p, z)
+	}
+}
+
 func (x *Exec) zeroLocal(st *State, t types.Type, name string) Value {
 	return x.zero(t)
 }
@@ -1429,6 +1504,13 @@ func (x *Exec) havoc(h *State, m *modSet) {
 	for _, v := range vs {
 		if _, ok := h.vars[v]; !ok {
 			continue // declared inside the loop
+		}
+		if bx, isBx := h.vars[v].(Bx); isBx {
+			// a local that lives in the heap keeps its cell; the content
+			// becomes unknown (its ghost fields are havocked through the
+			// callee contracts' modifies clauses, like any object's)
+			x.heapStoreStruct(h, v.Type(), bx.P, x.fresh(h, v.Type(), v.Name()))
+			continue
 		}
 		h.vars[v] = x.fresh(h, v.Type(), v.Name())
 	}
